@@ -6,7 +6,7 @@ DIRS=${@:-seeded/*}
 for d in $DIRS; do
   [ -f $d/patch.diff ] || continue
   p=$(basename $d | cut -d- -f1)
-  v=$(bin/seedverify.sh $d 2>&1 | tail -1)
+  if [ -n "${SKIP_VERIFY:-}" ] && [ "$(jq -r .confirmation $d/result.json 2>/dev/null)" = "confirmed" ]; then v="CONFIRMED (earlier run)"; else v=$(bin/seedverify.sh $d 2>&1 | tail -1); fi
   case "$v" in CONFIRMED*) conf=confirmed;; *) conf="NOT-CONFIRMED($v)";; esac
   out=$(bin/seedrun.sh $d/patch.diff $p $TIER 2>&1)
   nv=$(echo "$out" | grep -c "^VIOLATION")
